@@ -45,7 +45,7 @@ TInit == /\ TLCSet(1, 0)
          /\ l = 1 /\ bad = <<>> /\ devAt = [d \in {} |-> 0] /\ nexec = 0
          /\ kinds = [k \in {"rt-b3s", "rt-b3m", "rt-jg", "b3-accept", "b3-either", "b3-reject",
                             "jg-accept", "jg-either", "jg-reject"} |-> 0]
-         /\ phase = "trace" /\ fmt = "b3" /\ sc = NoSC /\ car = NoCar /\ res = Rej /\ devUsed = {}
+         /\ phase = "trace" /\ fmt = "b3" /\ sc = NoSC /\ car = NoCar /\ res = Rej /\ devUsed = {} /\ tl = NoTail
 
 TStep == /\ l <= Len(TraceLog) /\ l' = l + 1 /\ nexec' = nexec + 1
          /\ IF Explained(Ev)
